@@ -368,4 +368,46 @@ PROPS = {
                    "which is not mechanised.",
         explanation="release postconditions per function.",
     ),
+    "C06": dict(
+        specs=["packer", "avp", "avp_types", "avp_grouped", "base", "node_model", "peer", "helpers", "c20", "family", "node", "c13", "c06"],
+        ground=[], replay=replay.generic,
+        trusted_base=["time.time() non-decreasing"],
+        assumptions=COMMON_ASSUME + [
+            "NOT DECIDED: the four outcome cases of Node.receive_cer (2001 with the node's identity/ready, 3010 + closing for an "
+            "unknown peer, 5010 without becoming ready, relay) and of receive_cea (ready only on 2001, closed otherwise): these "
+            "handlers use set algebra and comprehensions over typed attributes that are outside the verified subset; they enter "
+            "the other proofs only through assumed contracts",
+            "NOT DECIDED: timing of the I/O loop; behaviour after a second CER on one connection (unspecified by the property)"],
+        category="proof",
+        level_text="Deductive proof of the gate and of the timeout/readiness guards on the real code: PeerConnection's dispatcher "
+                   "hands a message to the node only if the connection is past CONNECTED or the message is a capabilities-"
+                   "exchange message of the expected direction (CER on inbound, CEA on outbound connections), hands nothing on "
+                   "while CONNECTING/CLOSING/CLOSED, and at most once; an outbound connection queues exactly one CER with fresh "
+                   "non-zero identifiers (send_cer); a CONNECTED connection whose last read is older than the CER/CEA timeout "
+                   "(per-peer value over node value) is closed with FAILED_CONNECT_CE and left alone otherwise (_check_timers); "
+                   "route_request/route_answer return only READY/READY_WAITING_DWA connections (C09/C10 contracts).",
+        level_note="The capabilities-exchange outcome cases themselves are not decided (see assumptions).",
+        explanation="gate contract with a ghost log of handler invocations; timer and routing guards.",
+    ),
+    "C03": dict(
+        specs=["packer", "avp", "avp_types", "avp_grouped", "base", "node_model", "family", "node", "c08"],
+        ground=[ground.c03_tables, ground.c01_dictionary],
+        replay=replay.generic, category="other",
+        trusted_base=["the rows are evaluated on the imported real modules (exhaustive enumeration of a finite table)"],
+        assumptions=COMMON_ASSUME + [
+            "NOT DECIDED: the parametric round trip (generate_avps_from_defs / assign_attr_from_defs: set attributes -> exactly "
+            "one AVP each -> decoded back, encode-decode-encode = encode) and the attribute exposure of untyped commands "
+            "(_assign_attr_values): these functions use getattr/setattr with computed names and recursion over containers and "
+            "are only used through assumed contracts (assign_attr_from_defs, UndefinedMessage.__post_init__); no bounded "
+            "stand-in was built either, so this check does NOT establish the round-trip clauses of C03"],
+        level_text="Partial: (ground, exhaustive over all 2821 rows of all command classes and grouped containers) every declared "
+                   "attribute denotes exactly one dictionary AVP, a grouped one exactly when it has a container class, no two "
+                   "rows of a class denote the same AVP or share a name; (deductive) validate_message_avps names exactly the "
+                   "required-and-unset rows, and every generated __post_init__ of the typed command classes only touches the "
+                   "header code/flags, the AVP list and the object's own attributes and raises only AvpDecodeError. The "
+                   "value round-trip clauses of the property are not decided; hence category `other`.",
+        level_note="Table well-formedness exhaustively; round trip not decided (neither proved nor bounded).",
+        explanation="Exhaustive ground rows over the real attribute tables plus the contracts that consume those tables; the "
+                    "generate/assign round trip of C03 is NOT covered by any obligation.",
+    ),
 }
